@@ -89,6 +89,8 @@ def check(position: str, f) -> list[str]:
 
 
 def replay(case: dict) -> list[str]:
+    for h in case.get("history", []):
+        check(case["position"], tuple(h))
     return check(case["position"], tuple(case["fields"]))
 
 
@@ -104,6 +106,61 @@ def _work(task) -> core.Part:
             if p.full("datetime"):
                 p.capped = True
                 break
+    return p
+
+
+def equal_instant_sequences():
+    """Sequences of date-times that denote the SAME instant with different deviations (and equal civil fields with
+    different deviations): == on aware datetimes cannot tell them apart, the decoded value must."""
+    seqs = []
+    for (h, mi) in ((12, 0), (0, 30), (23, 45)):
+        for d1, d2 in ((0, -60), (-60, -120), (60, 0), (-120, 0), (720, -720), (0, None), (None, 0), (-60, -60)):
+            base_min = h * 60 + mi
+
+            def shifted(dev):
+                # civil time such that the instant is base_min UTC: local = UTC - deviation
+                loc = base_min - (dev or 0)
+                day = 10
+                if loc < 0:
+                    loc += 1440
+                    day = 9
+                elif loc >= 1440:
+                    loc -= 1440
+                    day = 11
+                return (2024, 3, day, loc // 60, loc % 60, 0, 0xFF, dev, 0, 0xFF)
+            seqs.append([shifted(d1), shifted(d2), shifted(d1)])
+            seqs.append([(2024, 3, 10, h, mi, 0, 0xFF, d1, 0, 0xFF), (2024, 3, 10, h, mi, 0, 0xFF, d2, 0, 0xFF)])
+            seqs.append([(2024, 3, 10, h, mi, 0, 0, d1, 0, 0xFF), (2024, 3, 10, h, mi, 0, 0xFF, d1, 0, 0xFF)])
+    return seqs
+
+
+def _work_pairs(task) -> core.Part:
+    position, = task
+    p = core.Part()
+    for seq in equal_instant_sequences():
+        for f in seq:
+            e = check(position, f)
+            p.add("evaluations")
+            if e:
+                p.viol("datetime", f"datetime:seq:{position}:{[RC.dt12(*x).hex() for x in seq]}", f"after decoding {[RC.dt12(*x).hex() for x in seq[:seq.index(f)]]}: {e[0]}",
+                       {"position": position, "fields": list(f), "history": [list(x) for x in seq[:seq.index(f)]]}, size=2)
+    # the APDU header and the list clock of ONE message naming the same instant in different offsets
+    from han import kaifa, kamstrup
+    for seq in equal_instant_sequences():
+        a, b = seq[0], seq[1]
+        names = RC.KAIFA_LAYOUTS[14]
+        body = RC.kaifa_body_positional(names, _kaifa_vals(names, b))
+        for label, fn, msg, want in (("kaifa frame: APDU and list clock are the same instant in different offsets (list clock wins)", kaifa.decode_frame_content, RC.llc(body, b"\x09\x0c" + RC.dt12(*a)), b),
+                                     ("kamstrup frame: APDU and list clock are the same instant in different offsets (APDU wins)", kamstrup.decode_frame_content,
+                                      RC.llc(RC.kam_body(RC.KAM_L2_1, _kam_vals(RC.KAM_L2_1, b)), b"\x0c" + RC.dt12(*a), b"\x00\x00\x00\x00"), a)):
+            p.add("evaluations")
+            try:
+                got = fn(msg).get("meter_datetime")
+            except Exception as ex:  # noqa: BLE001
+                got = ex
+            if isinstance(got, Exception) or not RC.same_dt(got, RC.exp_dt(*want)):
+                p.viol("datetime", f"datetime:twoclocks:{label[:12]}:{RC.dt12(*a).hex()}:{RC.dt12(*b).hex()}", f"{label}: APDU {RC.dt12(*a).hex()}, list clock {RC.dt12(*b).hex()}: meter_datetime {got!r}, expected {RC.exp_dt(*want)!r}",
+                       {"position": "kaifa_positional", "fields": list(b), "history": [list(a)]}, size=2)
     return p
 
 
@@ -193,13 +250,14 @@ def main(run: core.Run) -> int:
             tasks.append((pos, fl[i:i + 1500]))
     run.log(f"{len(prod)} product + {len(sw)} sweep date-times x {len(POSITIONS)} positions = {len(tasks)} partitions")
     run.merge(par.pmap(_work, tasks, seed=run.seed))
+    run.merge(par.pmap(_work_pairs, [(pos,) for pos in POSITIONS], seed=run.seed))
     if not q:
         run.log("complete calendar 1..9999 in one position")
         run.merge(par.pmap(_work_calendar, [(y, min(y + 50, 10000)) for y in range(1, 10000, 50)], seed=run.seed))
     tot = run.total
     tot.sample({"position": "apdu_tagged", "octets": RC.dt12(2024, 2, 29, 23, 59, 59, 99, -720, 0x80, 7).hex(), "expected": str(RC.exp_dt(2024, 2, 29, 23, 59, 59, 99, -720, 0x80, 7))})
     tot.sample({"position": "kamstrup_clock", "octets": RC.dt12(1, 1, 1, 0, 0, 0, 0xFF, None, 0xFF, 0xFF).hex(), "expected": str(RC.exp_dt(1, 1, 1, 0, 0, 0))})
-    run.bounds = {"product": len(prod), "sweeps": len(sw), "positions": list(POSITIONS), "leap_days": "every 29 February of years 4..9996; first/last day of every month of all century years",
+    run.bounds = {"product": len(prod), "sweeps": len(sw), "positions": list(POSITIONS), "equal_instant_sequences": "consecutive date-times naming one instant with different deviations (and APDU vs list clock of one message), 72 sequences x 6 positions", "leap_days": "every 29 February of years 4..9996; first/last day of every month of all century years",
                   "complete_calendar": "thorough: every valid date of years 1..9999 in the Kamstrup clock position"}
     run.assumptions = ["reference encoders mc/ref/cosem.py (bound to the fixtures)", "fields outside the alphabets are covered by single-field sweeps only (no full cross product)"]
     ev = tot.c.get("evaluations", 0)
